@@ -53,5 +53,14 @@ def probe1 : PItem :=
 
 def noRe : Str → Str → Bool := fun _ _ => false
 
+/-- a keyword item: no field name -/
+def kwItem : DetItem := { det := "kw".toList, field := none, values := [sv "plain"], applied := [] }
+/-- the world after `set_state k=v` -/
+def stateWorld : World := { emptyWorld with state := [("k".toList, .str "v".toList)] }
+/-- a drop probe gated by the field-name condition `processing_state k == v` (optionally negated) -/
+def stateDropProbe (neg : Bool) : PItem :=
+  { id := some "probe".toList, rule := noGroup, det := noGroup,
+    field := ⟨[.state ⟨"k".toList, .str "v".toList, .eq⟩], .all, neg⟩, action := .dropItem }
+
 
 end SigmaVerif.Lemmas.C13
